@@ -9,12 +9,15 @@ Open Scope list_scope.
 
 Definition cls0 : list (list string) := [["a"; "b"]; ["a"; "b"; "c"]; ["pos"; "w"]; ["x"]].
 Definition pri0 : list (nat * (Z * Z)) := map (fun p => (p, (0, 10)%Z)) (seq 0 8).
-(* the pinned wrapper: no clean-up on exceptions (Model.wrapper_cleanup = false at the pinned commit) *)
+(* HISTORY: the pinned wrapper, no clean-up on exceptions (before 5afd9f1) *)
 Definition cfg_pinned : config := mkConfig cls0 pri0 false true true.
-(* /repo today: wrapper repaired (5afd9f1); prior passing thaws; __setitem__ transfers ids *)
+(* HISTORY: wrapper repaired (5afd9f1), prior passing still thaws self, __setitem__ still transfers ids *)
 Definition cfg_repaired : config := mkConfig cls0 pri0 true true true.
-(* with the two proposed repairs applied as well *)
+(* /repo today: b8214a7 (prior passing works on a copy) and 6df133a (no id transfer to a caller's object) as well *)
 Definition cfg_fixed : config := mkConfig cls0 pri0 true false false.
+(* ... which is the configuration the correspondence runs (breaks if a constant of Model.v is flipped back) *)
+Example current_is_fixed : mkConfig cls0 pri0 wrapper_cleanup derive_thaws setitem_transfers = cfg_fixed.
+Proof. reflexivity. Qed.
 (* both configurations start from the same empty heap with the eight priors of pri0 *)
 Definition init0 : state := mkState [] [] pri0.
 
@@ -51,16 +54,16 @@ Definition h_stale : list op :=
   [leaf_model 0 1; ONew KColl [("m", VRef 0)] 0; ONew KColl [("m", VRef 0); ("n", VPrior 2)] 0;
    OFreeze 1; OFreeze 2; OQuery 1 QCount; OUnfreeze 2; OSet 0 "e" (VPrior 3)].
 
-Lemma stale_answer : snd (run cfg_repaired (h_stale ++ [OQuery 1 QCount]) init0)
-                     = snd (run cfg_repaired h_stale init0) ++ [Ok (ANat 2)].
+Lemma stale_answer : snd (run cfg_fixed (h_stale ++ [OQuery 1 QCount]) init0)
+                     = snd (run cfg_fixed h_stale init0) ++ [Ok (ANat 2)].
 Proof. vm_compute. reflexivity. Qed.
-Lemma stale_fresh : snd (run_query cfg_repaired 1 QCount (fresh (fst (run cfg_repaired h_stale init0)))) = Ok (ANat 3).
+Lemma stale_fresh : snd (run_query cfg_fixed 1 QCount (fresh (fst (run cfg_fixed h_stale init0)))) = Ok (ANat 3).
 Proof. vm_compute. reflexivity. Qed.
 
 (* refuted even for the repaired wrapper: this finding is independent of the first *)
-Lemma refuted_stale_ancestor : ~ coherent_everywhere cfg_repaired.
+Lemma refuted_stale_ancestor : ~ coherent_everywhere cfg_fixed.
 Proof.
-  intros H. specialize (H h_stale 1 QCount). change (init cfg_repaired) with init0 in H. rewrite stale_answer, stale_fresh in H.
+  intros H. specialize (H h_stale 1 QCount). change (init cfg_fixed) with init0 in H. rewrite stale_answer, stale_fresh in H.
   apply app_inv_head in H. discriminate.
 Qed.
 
@@ -69,24 +72,24 @@ Definition h_tuple : list op :=
   [ONew KTuple [("pos_0", VPrior 0); ("pos_1", VConst 2)] 0; ONew (KModel 2) [("pos", VRef 0); ("w", VPrior 1)] 0;
    OFreeze 1; OQuery 1 QCount; OSet 1 "pos_1" (VPrior 2); OSet 0 "pos_1" (VPrior 2)].
 
-Lemma tuple_outcomes : snd (run cfg_repaired (h_tuple ++ [OQuery 1 QCount]) init0)
+Lemma tuple_outcomes : snd (run cfg_fixed (h_tuple ++ [OQuery 1 QCount]) init0)
   = [Ok AUnit; Ok AUnit; Ok AUnit; Ok (ANat 2); Exn EAssertion; Ok AUnit; Ok (ANat 2)].
 Proof. vm_compute. reflexivity. Qed.
-Lemma tuple_fresh : snd (run_query cfg_repaired 1 QCount (fresh (fst (run cfg_repaired h_tuple init0)))) = Ok (ANat 3).
+Lemma tuple_fresh : snd (run_query cfg_fixed 1 QCount (fresh (fst (run cfg_fixed h_tuple init0)))) = Ok (ANat 3).
 Proof. vm_compute. reflexivity. Qed.
 
 (* 4. delattr is not guarded *)
 Definition h_del : list op := [leaf_model 0 1; OFreeze 0; OQuery 0 QCount; ODel 0 "a"].
-Lemma del_outcomes : snd (run cfg_repaired (h_del ++ [OQuery 0 QCount]) init0)
+Lemma del_outcomes : snd (run cfg_fixed (h_del ++ [OQuery 0 QCount]) init0)
   = [Ok AUnit; Ok AUnit; Ok (ANat 2); Ok AUnit; Ok (ANat 2)].
 Proof. vm_compute. reflexivity. Qed.
-Lemma del_fresh : snd (run_query cfg_repaired 0 QCount (fresh (fst (run cfg_repaired h_del init0)))) = Ok (ANat 1).
+Lemma del_fresh : snd (run_query cfg_fixed 0 QCount (fresh (fst (run cfg_fixed h_del init0)))) = Ok (ANat 1).
 Proof. vm_compute. reflexivity. Qed.
 
 (* none of the four satisfies the guard (so the partial theorem excludes exactly these) *)
 Lemma witnesses_unguarded :
-  guardedb cfg_pinned h_poison init0 = false /\ guardedb cfg_repaired h_stale init0 = false /\
-  guardedb cfg_repaired h_tuple init0 = false /\ guardedb cfg_repaired h_del init0 = false.
+  guardedb cfg_pinned h_poison init0 = false /\ guardedb cfg_fixed h_stale init0 = false /\
+  guardedb cfg_fixed h_tuple init0 = false /\ guardedb cfg_fixed h_del init0 = false.
 Proof. repeat split; vm_compute; reflexivity. Qed.
 
 (* ------------------------------------------------------------------ non-vacuity *)
@@ -98,33 +101,33 @@ Definition h_good : list op :=
    OQuery 2 (QInstance [1; 2]%Z); OCopy 2; OUnfreeze 2; OSet 0 "b" (VPrior 2); OAppend 2 (VRef 1);
    OFreeze 2; OQuery 2 QPaths; OQuery 2 QCount; OQuery 3 QCount].
 
-Example good_is_guarded : guarded cfg_pinned h_good init0.
+Example good_is_guarded : guarded cfg_fixed h_good init0.
 Proof. apply guardedb_sound. vm_compute. reflexivity. Qed.
 
 Example good_outcomes :
   map (fun r => match r with Ok (ANat n) => Some n | _ => None end)
-      (snd (run cfg_pinned h_good init0))
+      (snd (run cfg_fixed h_good init0))
   = [None; None; None; None; Some 2; None; None; None; None; None; None; None; None; None; None; Some 3; Some 2].
 Proof. vm_compute. reflexivity. Qed.
 
 Example frozen_rejects_hypotheses :
-  let st := fst (run cfg_pinned [leaf_model 0 1; OFreeze 0] init0) in
+  let st := fst (run cfg_fixed [leaf_model 0 1; OFreeze 0] init0) in
   exists ob, get st 0 = Some ob /\ okind ob <> KTuple /\ ofrozen ob = true.
 Proof. eexists. split; [vm_compute; reflexivity|]. split; [discriminate|reflexivity]. Qed.
 
 Example inv_holds_somewhere_frozen :
-  let st := fst (run cfg_pinned [leaf_model 0 1; OFreeze 0; OQuery 0 QCount] init0) in
+  let st := fst (run cfg_fixed [leaf_model 0 1; OFreeze 0; OQuery 0 QCount] init0) in
   Inv st /\ exists ob, get st 0 = Some ob /\ ocache ob <> [].
 Proof.
   split.
-  - apply (guarded_ok cfg_pinned [leaf_model 0 1; OFreeze 0; OQuery 0 QCount] (init cfg_pinned) (Inv_init cfg_pinned) eq_refl).
+  - apply (guarded_ok cfg_fixed [leaf_model 0 1; OFreeze 0; OQuery 0 QCount] (init cfg_fixed) (Inv_init cfg_fixed) eq_refl).
     apply guardedb_sound. vm_compute. reflexivity.
   - eexists. split; [vm_compute; reflexivity|]. discriminate.
 Qed.
 
 Example agree_nonvacuous :
-  let st := fst (run cfg_pinned [leaf_model 0 1; leaf_model 2 3] init0) in
-  let st' := fst (run cfg_pinned [leaf_model 0 1; leaf_model 2 3; OSet 1 "a" (VConst 7)] init0) in
+  let st := fst (run cfg_fixed [leaf_model 0 1; leaf_model 2 3] init0) in
+  let st' := fst (run cfg_fixed [leaf_model 0 1; leaf_model 2 3; OSet 1 "a" (VConst 7)] init0) in
   quiet st st' /\ comp_at st' 1 <> comp_at st 1.
 Proof. split; [apply quietb_sound; vm_compute; reflexivity|vm_compute; discriminate]. Qed.
 
@@ -132,9 +135,9 @@ Proof. split; [apply quietb_sound; vm_compute; reflexivity|vm_compute; discrimin
 Definition h_a : list op := [leaf_model 0 1; OFreeze 0; OQuery 0 QCount; OQuery 0 QInfo; OUnfreeze 0; OFreeze 0].
 Definition h_b : list op := [leaf_model 0 1].
 Example history_independent_hypotheses :
-  guarded cfg_pinned h_a init0 /\ guarded cfg_pinned h_b init0 /\
-  fresh (fst (run cfg_pinned h_a init0)) = fresh (fst (run cfg_pinned h_b init0)) /\
-  fst (run cfg_pinned h_a init0) <> fst (run cfg_pinned h_b init0).
+  guarded cfg_fixed h_a init0 /\ guarded cfg_fixed h_b init0 /\
+  fresh (fst (run cfg_fixed h_a init0)) = fresh (fst (run cfg_fixed h_b init0)) /\
+  fst (run cfg_fixed h_a init0) <> fst (run cfg_fixed h_b init0).
 Proof.
   split; [apply guardedb_sound; vm_compute; reflexivity|].
   split; [apply guardedb_sound; vm_compute; reflexivity|].
@@ -143,21 +146,21 @@ Qed.
 
 (* hypotheses of C13_reflects_changes: an unfrozen collection *)
 Example reflects_changes_hypotheses :
-  let st := fst (run cfg_pinned [leaf_model 0 1; ONew KColl [("m", VRef 0)] 0] init0) in
+  let st := fst (run cfg_fixed [leaf_model 0 1; ONew KColl [("m", VRef 0)] 0] init0) in
   exists ob, get st 1 = Some ob /\ okind ob = KColl /\ ofrozen ob = false.
 Proof. eexists. split; [vm_compute; reflexivity|]. split; reflexivity. Qed.
 
 (* hypotheses of C13_other_models_irrelevant: two states that differ (another live model was
    modified) and agree on everything reachable from object 2 *)
 Example other_models_hypotheses :
-  let st := fst (run cfg_pinned [leaf_model 0 1; leaf_model 2 3; ONew KColl [("m", VRef 0)] 0] init0) in
-  let st' := fst (run cfg_pinned [leaf_model 0 1; leaf_model 2 3; ONew KColl [("m", VRef 0)] 0; OSet 1 "a" (VConst 7)] init0) in
+  let st := fst (run cfg_fixed [leaf_model 0 1; leaf_model 2 3; ONew KColl [("m", VRef 0)] 0] init0) in
+  let st' := fst (run cfg_fixed [leaf_model 0 1; leaf_model 2 3; ONew KColl [("m", VRef 0)] 0; OSet 1 "a" (VConst 7)] init0) in
   agree st st' 2 /\ inflight st' = inflight st /\ st' <> st.
 Proof.
   split; [|split; [reflexivity|vm_compute; discriminate]].
   split; [|intros p _; reflexivity].
   intros t R. apply comp_eqb_eq.
-  assert (C : closedb (fst (run cfg_pinned [leaf_model 0 1; leaf_model 2 3; ONew KColl [("m", VRef 0)] 0] init0)) [2; 0] = true)
+  assert (C : closedb (fst (run cfg_fixed [leaf_model 0 1; leaf_model 2 3; ONew KColl [("m", VRef 0)] 0] init0)) [2; 0] = true)
     by (vm_compute; reflexivity).
   pose proof (Reach_closed _ _ C 2 t R (or_introl eq_refl)) as Hin.
   destruct Hin as [<-|[<-|[]]]; vm_compute; reflexivity.
@@ -165,13 +168,13 @@ Qed.
 
 (* models_with_type goes through two more cached functions; a frozen history that uses them *)
 Example models_query_cached :
-  snd (run cfg_pinned [leaf_model 0 1; ONew (KModel 3) [("x", VConst 1)] 0; ONew KColl [("m", VRef 0); ("n", VRef 1)] 0;
+  snd (run cfg_fixed [leaf_model 0 1; ONew (KModel 3) [("x", VConst 1)] 0; ONew KColl [("m", VRef 0); ("n", VRef 1)] 0;
                        OFreeze 2; OQuery 2 (QModels None false); OQuery 2 (QModels None true); OQuery 2 (QModels (Some 3) true)] init0)
   = [Ok AUnit; Ok AUnit; Ok AUnit; Ok AUnit; Ok (AItems [([], LObj 0)]); Ok (AItems [([], LObj 0); ([], LObj 1)]);
      Ok (AItems [([], LObj 1)])].
 Proof. vm_compute. reflexivity. Qed.
 
-(* ------------------------------------------------------------------ item assignment rewrites ids *)
+(* ------------------------------------------------------------------ HISTORY (before 6df133a): item assignment rewrote ids *)
 (* collection 1 assigns the prior p3 (which collection 0 also holds) over its key "m": p3 receives the
    id of the prior that sat there (p2), collection 0 -- never touched, not containing collection 1 --
    now reports a different id for its own parameter *)
@@ -205,7 +208,7 @@ Example items_merge :
   = [Ok AUnit; Ok AUnit; Ok (ANat 3); Ok AUnit; Ok AUnit; Ok (ANat 2)].
 Proof. vm_compute. reflexivity. Qed.
 
-(* ------------------------------------------------------------------ prior passing thaws *)
+(* ------------------------------------------------------------------ HISTORY (before b8214a7): prior passing thawed *)
 Definition h_derive : list op := [leaf_model 0 1; ONew KColl [("m", VRef 0)] 0; OFreeze 1; OQuery 1 QCount].
 
 Lemma derive_flags : map ofrozen (heap (fst (step cfg_repaired (ODerive 1) (fst (run cfg_repaired h_derive init0))))) = [false; true]
@@ -225,13 +228,13 @@ Example derive_then_stale :
 Proof. vm_compute. reflexivity. Qed.
 
 (* ------------------------------------------------------------------ freeze does not reach tuple members *)
-Lemma tuple_unprotected : ~ freeze_protects_all cfg_repaired.
+Lemma tuple_unprotected : ~ freeze_protects_all cfg_fixed.
 Proof.
   intros H.
   specialize (H [ONew KTuple [("pos_0", VPrior 0); ("pos_1", VConst 2)] 0; ONew (KModel 2) [("pos", VRef 0); ("w", VPrior 1)] 0]
                 1 0 "pos_1" (VPrior 2)).
-  change (init cfg_repaired) with init0 in H.
-  assert (R : Reach (fst (run cfg_repaired ([ONew KTuple [("pos_0", VPrior 0); ("pos_1", VConst 2)] 0;
+  change (init cfg_fixed) with init0 in H.
+  assert (R : Reach (fst (run cfg_fixed ([ONew KTuple [("pos_0", VPrior 0); ("pos_1", VConst 2)] 0;
                        ONew (KModel 2) [("pos", VRef 0); ("w", VPrior 1)] 0] ++ [OFreeze 1]) init0)) 1 0).
   { eapply Reach_step; [vm_compute; reflexivity|left; reflexivity|apply Reach_refl]. }
   specialize (H R). vm_compute in H. discriminate.
@@ -239,19 +242,19 @@ Qed.
 
 (* hypotheses of the freeze theorem: a successful freeze of a collection over a model over a collection *)
 Example freeze_depth_hypotheses :
-  let st := fst (run cfg_repaired [leaf_model 0 1; ONew KColl [("m", VRef 0)] 0; ONew (KModel 3) [("x", VRef 1)] 0;
+  let st := fst (run cfg_fixed [leaf_model 0 1; ONew KColl [("m", VRef 0)] 0; ONew (KModel 3) [("x", VRef 1)] 0;
                                   ONew KColl [("q", VRef 2); ("r", VRef 0)] 0] init0) in
   Inv st /\ snd (freeze FUEL 3 st) = Ok tt /\ PMReach st 3 0.
 Proof.
   split; [|split].
-  - apply (guarded_ok cfg_repaired _ (init cfg_repaired) (Inv_init cfg_repaired) eq_refl). apply guardedb_sound. vm_compute. reflexivity.
+  - apply (guarded_ok cfg_fixed _ (init cfg_fixed) (Inv_init cfg_fixed) eq_refl). apply guardedb_sound. vm_compute. reflexivity.
   - vm_compute. reflexivity.
   - eapply PM_step; [vm_compute; reflexivity|right; left; reflexivity|vm_compute; reflexivity|reflexivity|apply PM_refl].
 Qed.
 
 (* a self-referential collection: the recursion guard truncates the walk at the loop *)
 Example self_reference :
-  snd (run cfg_repaired [ONew KColl [("m", VPrior 0)] 0; OSet 0 "q" (VRef 0); OSet 0 "n" (VPrior 1); OQuery 0 QCount;
+  snd (run cfg_fixed [ONew KColl [("m", VPrior 0)] 0; OSet 0 "q" (VRef 0); OSet 0 "n" (VPrior 1); OQuery 0 QCount;
                          OQuery 0 QPaths; OFreeze 0; OQuery 0 QCount; OCopy 0; OQuery 1 QCount] init0)
   = [Ok AUnit; Ok AUnit; Ok AUnit; Ok (ANat 1); Ok (AItems [(["m"], LPrior 0)]); Ok AUnit; Ok (ANat 1); Ok AUnit; Ok (ANat 1)].
 Proof. vm_compute. reflexivity. Qed.
@@ -263,4 +266,27 @@ Example fixed_items :
 Proof. vm_compute. reflexivity. Qed.
 Example fixed_derive :
   map ofrozen (heap (fst (step cfg_fixed (ODerive 1) (fst (run cfg_fixed h_derive init0))))) = [true; true].
+Proof. vm_compute. reflexivity. Qed.
+
+(* the former witnesses on today's configuration: the frozen collection keeps its component frozen,
+   the later assignment is rejected, the answers stay right *)
+Example fixed_derive_history :
+  snd (run cfg_fixed (h_derive ++ [ODerive 1; OSet 0 "e" (VPrior 2); OQuery 1 QCount; OCopy 1; OQuery 2 QCount]) init0)
+  = [Ok AUnit; Ok AUnit; Ok AUnit; Ok (ANat 2); Ok AUnit; Exn EAssertion; Ok (ANat 2); Ok AUnit; Ok (ANat 2)].
+Proof. vm_compute. reflexivity. Qed.
+Example fixed_items_no_merge :
+  snd (run cfg_fixed (h_items ++ [OQuery 0 QCount; OSetItem 1 "m" (VPrior 1); OSetItem 1 "m" (VPrior 0); OQuery 0 QCount; OQuery 0 QOrdered]) init0)
+  = [Ok AUnit; Ok AUnit; Ok (ANat 3); Ok AUnit; Ok AUnit; Ok (ANat 3);
+     Ok (AItems [(["m"], LPrior 0); (["k"], LPrior 1); (["n"], LPrior 3)])].
+Proof. vm_compute. reflexivity. Qed.
+Example fixed_histories_guarded :
+  guardedb cfg_fixed (h_derive ++ [ODerive 1; OSet 0 "e" (VPrior 2); OQuery 1 QCount]) init0 = true /\
+  guardedb cfg_fixed (h_items ++ [OSetItem 1 "m" (VPrior 3); OSetItem 1 "m" (VPrior 0)]) init0 = true.
+Proof. split; vm_compute; reflexivity. Qed.
+(* the redirect of tuple member names uses the part before the LAST underscore (595e741) *)
+Example redirect_last_underscore :
+  snd (run cfg_fixed [ONew KTuple [("pos_0", VPrior 0)] 0; ONew (KModel 2) [("pos", VRef 0); ("w", VPrior 1)] 0;
+                      OSet 1 "pos_1" (VPrior 2); OSet 1 "pos_0_1" (VPrior 3); OQuery 1 QPaths] init0)
+  = [Ok AUnit; Ok AUnit; Ok AUnit; Ok AUnit;
+     Ok (AItems [(["pos"; "pos_0"], LPrior 0); (["w"], LPrior 1); (["pos"; "pos_1"], LPrior 2); (["pos_0_1"], LPrior 3)])].
 Proof. vm_compute. reflexivity. Qed.
